@@ -136,8 +136,48 @@ Section Render.
     | SeqCtx3 input acts => concat (map (fun s => gs_toks s l) input) ++ [t_arrow l] ++ nested_toks acts l
     end.
 
+  Definition t_bar (l : N) := tk TBar [124] l.
+  Fixpoint chain1_toks (mm : list (N * chain_rule)) (first : bool) (l : N) : list token :=
+    match mm with
+    | [] => []
+    | (g, (bt, inp, la, acts)) :: r =>
+        (if first then [] else [t_comma l]) ++ gl_toks (rev bt) l ++ [t_bar l] ++ gl_toks (g :: inp) l
+          ++ [t_bar l] ++ gl_toks la l ++ [t_arrow l] ++ nested_toks acts l ++ chain1_toks r false l
+    end.
+  Definition cls_toks (cs : list N) (l : N) : list token := concat (map (fun x => class_toks x l) cs).
+  Fixpoint chain2_toks (mm : list (N * chain_rule)) (first : bool) (l : N) : list token :=
+    match mm with
+    | [] => []
+    | (c, (bt, inp, la, acts)) :: r =>
+        (if first then [] else [t_comma l]) ++ cls_toks (rev bt) l ++ [t_bar l] ++ cls_toks (c :: inp) l
+          ++ [t_bar l] ++ cls_toks la l ++ [t_arrow l] ++ nested_toks acts l ++ chain2_toks r false l
+    end.
+  Definition sets_toks (sets : list (list N)) (l : N) : list token :=
+    concat (map (fun s => gs_toks s l) sets).
+
+  Definition chain_dl (h : chain_sub) : N :=
+    match h with
+    | Chain2 _ btc inc lac _ => N.of_nat (length btc) + N.of_nat (length inc) + N.of_nat (length lac)
+    | _ => 0
+    end.
+  Definition chain_toks (h : chain_sub) (l : N) : list token :=
+    match h with
+    | Chain1 cov rules => chain1_toks (flat_rules (combine cov rules)) true l
+    | Chain2 cov btc inc lac rules =>
+        let l1 := l + N.of_nat (length btc) in
+        let l2 := l1 + N.of_nat (length inc) in
+        let l3 := l2 + N.of_nat (length lac) in
+        defcls_toks k_backtrackclass btc 1 l ++ defcls_toks k_inputclass inc 1 l1
+          ++ defcls_toks k_lookaheadclass lac 1 l2 ++ [t_slash l3] ++ gl_toks cov l3 ++ [t_slash l3]
+          ++ chain2_toks (flat_rules (index_from 0 rules)) true l3
+    | Chain3 bt input la acts =>
+        sets_toks (rev bt) l ++ [t_bar l] ++ sets_toks input l ++ [t_bar l] ++ sets_toks la l
+          ++ [t_arrow l] ++ nested_toks acts l
+    end.
+
   Definition sub_toks (s : subtable) (l : N) : list token :=
     match s with
+    | Chn h => chain_toks h l
     | Ctx c => ctx_toks c l
     | Gsub1_1 cov delta =>
         let mm := stable_sort (map (fun k => (k, (k + delta) mod 65536)) cov) in
@@ -154,7 +194,7 @@ Section Render.
     end.
 
   (* lines a subtable's own text spans beyond its first (class definitions) *)
-  Definition sub_dl (s : subtable) : N := match s with Ctx c => ctx_dl c | _ => 0 end.
+  Definition sub_dl (s : subtable) : N := match s with Ctx c => ctx_dl c | Chn h => chain_dl h | _ => 0 end.
 
   (* subtables; each " ||\n\t" starts a new line *)
   Fixpoint subs_toks (hdr : N -> list token) (subs : list subtable) (first : bool) (l : N) : list token :=
